@@ -374,7 +374,9 @@ def catalogue(g):
             # own interfaces: a shadowing local of the same type leaves the mock compilable, only the values a callback receives tell
             # (names of the recorded identifier-capture family do not compile whatever the parameter type: nothing to add for them)
             if nm not in CAPTURED_LOCALS:
-                add("ident.template-local-bool." + nm, ["B(%s bool, n int) (bool, error)" % nm, "B2(n int, %s bool) bool" % nm])
+                add("ident.template-local-bool." + nm, ["B(%s bool, n int) (bool, error)" % nm, "B2(n int, %s bool) bool" % nm,
+                                                        # every variable named in the source, predeclared types only (the file needs no import when it is processed)
+                                                        "B3(n int, %s bool) (out bool, failure error)" % nm])
                 add("ident.template-local-error." + nm, ["E(n int, %s error) error" % nm])
     for nm in QUALIFIER_NAMES:
         add("ident.qualifier." + nm, ["P(%s int, t %s.T) %s.T" % (nm, qa, qb), "Q(%s io.Reader, c context.Context) (http.Header, error)" % nm])
